@@ -154,7 +154,8 @@ def run_case(ctx, case):
     mon = LimitMonitor(ctx)
     eng = hist.Engine(ctx, case, [mon])
     eng.run()
-    ctx.case({k: case[k] for k in ("worklist", "worktable", "n_ops", "opseed")}, mon.accepted > 0 and mon.rejected > 0)
+    c2 = {k: case[k] for k in ("worklist", "worktable", "n_ops", "opseed")}
+    ctx.case(c2, mon.accepted > 0 and mon.rejected > 0, sample=dict(c2, executed_operations_tail=eng.tail(4)))
     ctx.count("hooked_calls", sum(1 for _ in ()))
 
 
